@@ -352,3 +352,59 @@ func globalAddrOf(v ssa.Value) *ssa.Global {
 	}
 	return nil
 }
+
+// ---------------------------------------------------------------------------
+// R-OS-PREDICATE
+
+var rOSPredicate = &Rule{
+	Name: "R-OS-PREDICATE",
+	Doc: "the portable OS predicates recognise their sentinel by the library's network-portable identity: oserror.IsPermission / IsExist / IsNotExist each call errors.Is (markers.Is) with the caller's error and the package's sentinel variable, and no function of the package compares an error with `==`. " +
+		"A decoded sentinel is a different Go value with the same mark: an identity comparison is true before the first hop and false after it",
+	Run: func(c *core.Ctx) {
+		p := c.P
+		n := 0
+		for _, name := range []string{"IsPermission", "IsExist", "IsNotExist"} {
+			fn := p.Func("oserror", name)
+			if fn == nil || len(fn.Params) != 1 {
+				c.InternalErr("oserror."+name, "predicate not found")
+				continue
+			}
+			n++
+			found := false
+			reg := regionOf(fn)
+			reg.each(func(in ssa.Instruction) {
+				call, ok := in.(*ssa.Call)
+				if !ok || len(call.Call.Args) != 2 {
+					return
+				}
+				f := sx.Callee(call)
+				if f == nil || f.Name() != "Is" || !p.InModule(f) {
+					return
+				}
+				if reg.resolve(call.Call.Args[0]) != ssa.Value(fn.Params[0]) {
+					return
+				}
+				if ld, isLd := reg.resolve(call.Call.Args[1]).(*ssa.UnOp); isLd {
+					if g, isG := ld.X.(*ssa.Global); isG && g.Pkg == fn.Pkg {
+						found = true
+					}
+				}
+			})
+			c.Check(found, "oserror."+name+": sentinel test", fn.Pos(), "errors.Is(err, <the package's sentinel>)",
+				"the predicate no longer asks errors.Is for its sentinel: a sentinel that has crossed the network (a different value with the same mark) is not recognised, so the predicate is true before a hop and false after it")
+		}
+		for _, fn := range p.HandFuncs() {
+			if pk := load.FnPkg(fn); pk == nil || !strings.HasSuffix(pk.Path(), "/oserror") {
+				continue
+			}
+			sx.EachInstr(fn, func(in ssa.Instruction) {
+				bo, ok := in.(*ssa.BinOp)
+				if !ok || (bo.Op != token.EQL && bo.Op != token.NEQ) || !sx.IsErrorType(bo.X.Type()) || sx.IsNil(bo.X) || sx.IsNil(bo.Y) {
+					return
+				}
+				c.Fail(load.FnName(fn)+": identity comparison of errors", sx.InstrPos(bo), "an OS predicate compares error values with "+bo.Op.String()+": identity does not survive the network (and panics for uncomparable error types)")
+			})
+		}
+		c.Min("portable OS predicates", n, 3)
+	},
+}
